@@ -179,6 +179,40 @@ def dumps_equal_tol(a, b, ulps=4):
     return True
 
 
+
+def dags_equal_mod_sharing(a, b, ulps=4):
+    """the two dumps have the same tree unfolding (sharing is not semantic), constants within a few ulps"""
+    from common import ulp_diff32
+    import sys
+    na, nb = parse_dump(a), parse_dump(b)
+    if not na or not nb:
+        return False
+    memo = {}
+    sys.setrecursionlimit(max(10000, sys.getrecursionlimit()))
+
+    def eq(i, j):
+        k = (i, j)
+        if k in memo:
+            return memo[k]
+        memo[k] = True          # DAGs: no cycles, provisional value never consulted
+        x, y = na[i], nb[j]
+        r = False
+        if x[0] == y[0] and len(x) == len(y):
+            if x[0] == "c":
+                r = ulp_diff32(x[1], y[1]) <= ulps
+            elif x[0] in ("X", "Y", "Z", "I"):
+                r = True
+            elif x[0] in ("v", "o", "n"):
+                r = x[1] == y[1]
+            elif x[0] in ("u", "b"):
+                r = x[1] == y[1] and all(eq(p, q) for p, q in zip(x[2:], y[2:]))
+            else:
+                r = all(eq(p, q) for p, q in zip(x[1:], y[1:]))
+        memo[k] = r
+        return r
+    return eq(len(na) - 1, len(nb) - 1)
+
+
 COMM = {"OP_ADD", "OP_MUL", "OP_MIN", "OP_MAX"}
 
 
